@@ -44,8 +44,15 @@ Step ==
                                      IF gs = {} THEN pend ELSE LET g == CHOOSE x \in gs : TRUE IN [pend EXCEPT ![g].pos = Len(seq) + 1]
                           /\ UNCHANGED <<ackPos, rotn, mode, bad, nok, cs>>
        [] Ev.t = "ret" -> /\ IF Ev.g \in DOMAIN pend
-                             THEN /\ ackPos' = IF pend[Ev.g].pos > ackPos[pend[Ev.g].k] THEN [ackPos EXCEPT ![pend[Ev.g].k] = pend[Ev.g].pos] ELSE ackPos
-                                  /\ pend' = [g \in DOMAIN pend \ {Ev.g} |-> pend[g]]
+                             THEN LET me == pend[Ev.g]
+                                      \* two clients with the same mutation in flight (two deletes of one key): the "app" line cannot tell
+                                      \* them apart and may have been booked on the other one - the one that returns first owns the position
+                                      tw == {h \in DOMAIN pend \ {Ev.g} : pend[h].k = me.k /\ pend[h].v = me.v /\ pend[h].pos # 0}
+                                      swap == me.pos = 0 /\ tw # {}
+                                      h == CHOOSE x \in tw : TRUE
+                                      pos == IF swap THEN pend[h].pos ELSE me.pos
+                                  IN /\ ackPos' = IF pos > ackPos[me.k] THEN [ackPos EXCEPT ![me.k] = pos] ELSE ackPos
+                                     /\ pend' = [g \in DOMAIN pend \ {Ev.g} |-> IF swap /\ g = h THEN [pend[g] EXCEPT !.pos = 0] ELSE pend[g]]
                              ELSE UNCHANGED <<ackPos, pend>>
                           /\ UNCHANGED <<seq, rotn, mode, bad, nok, cs>>
        [] Ev.t = "rot" -> rotn' = Len(seq) /\ UNCHANGED <<seq, ackPos, pend, mode, bad, nok, cs>>
